@@ -11,6 +11,7 @@ from vt.checks.c01 import cancellation_bound
 
 PROPERTY = "C18"
 TITLE = "Uniform and layered tracers reduce to image geometry / the one-medium tracer"
+TECHNIQUE = ('runtime monitoring: recorded uniform and layered solutions decided by mirror-image geometry, chain continuity / Snell / mirror laws at every junction, and comparison of a split medium with the unsplit one; decoy media with the same boundaries traced first')
 ANCHORS = ["pyrex.ray_tracing:UniformRayTracePath._points", "pyrex.ray_tracing:UniformRayTracer._reflected_path", "pyrex.ray_tracing:UniformRayTracer.solutions",
            "pyrex.custom.layered_ice.ray_tracing:LayeredRayTracer._trace_path", "pyrex.custom.layered_ice.ray_tracing:LayeredRayTracer.solutions",
            "pyrex.custom.layered_ice.ray_tracing:LayeredRayTracePath.path_length", "pyrex.custom.layered_ice.ray_tracing:LayeredRayTracePath.tof",
